@@ -201,3 +201,26 @@ PROPS["C19"] = dict(
     level_note="Trusted: the handler glue in harness/props/c19.go mirrors how an indexer uses the writer (assumption); Go's net/http.",
     assumptions=["a hex key whose characters all lie in the base58 alphabet may legitimately be read as base58 (either outcome accepted)"],
 )
+
+PROPS["C03"] = dict(
+    race=False,
+    shards={"quick": 8, "thorough": 16},
+    level="exploration",
+    design_ref="DESIGN.md §1 C03",
+    technique="runtime monitor: accept/reject oracle on field- and byte-altered signed heads, end-to-end through a fault-injecting publisher front with request log",
+    rule=("codec-fields: seeded (root CID v0/v1, topic none/short/long/non-ASCII, signer of every libp2p key type) heads; 10 field alterations "
+          "(other CID, topic changed/removed, key of another identity, key/signature byte flipped, signature removed, key+signature swapped from "
+          "another valid head, signature by the same key over another CID, re-signed by another identity), passed through the wire format; "
+          "an altered head must not validate to the original signer. codec-bytes: EVERY byte of the dag-json encoding altered; semantically "
+          "identical mutants (same CID, topic, parsed key, signature) skipped. end-to-end: a real Subscriber syncs a real Publisher behind a "
+          "front that replaces the head response (plain HTTP and libp2p-HTTP discovery mounts; publisher ID given as AddrInfo.ID or only as "
+          "/p2p/<id> in the address): rejected, no block request after the head request, no hook, no store write, latest-synced unchanged; "
+          "genuine heads sync; and every head the publisher serves validates to its own ID, root and topic. distinct_nontrivial = distinct "
+          "(key type, alteration, topic present / mount / id placement) tuples."),
+    floors={"quick": {"e2e_rejections_expected": 120, "e2e_genuine_syncs": 10, "bytes_decodable_rejected": 2000, "publisher_heads_checked": 150, "e2e_mode_libp2phttp-discovery": 20}},
+    level_text=("Exploration: real signing, encoding, head queries and syncs; every listed alteration kind and every byte of sampled encodings is "
+                "tried for every key type, and the end-to-end effect (no request after the head, no latest-synced change) is observed at a "
+                "logging publisher front."),
+    level_note="Trusted: libp2p key parsing (to decide semantic identity of a mutant); the front faithfully replaces only the head response.",
+    assumptions=["crafted signature malleability (e.g. ECDSA high-S re-encoding) is not generated"],
+)
